@@ -101,7 +101,7 @@ def timeline_check(ctx, inp, frames, sock, key):
 def run(ctx):
     ctx.rule = ("ping of every length 0..125 (and 126/127/200) alone; bursts; pings before/between/inside fragmented messages; "
                 "unsolicited pongs; random mixes; read with recv / recv_data(ctl) / recv_data_frame(ctl), single chunk and byte-wise "
-                "delivery. non-trivial = stream contains a ping")
+                "delivery; 30 % of the sessions on a transport that accepts writes in pieces. non-trivial = stream contains a ping")
     sts = gen(ctx)
     rnd = ctx.rng("cfg")
     key = b"\x11\x22\x33\x44"
@@ -111,7 +111,11 @@ def run(ctx):
         for api in (["recv", "recvdata:1", "rdf:0"] if len(frames) <= 3 else [rnd.choice(["recv", "recvdata:0", "recvdata:1", "rdf:0", "rdf:1"])]):
             events = [("chunk", stream)] if rnd.random() < 0.7 else [("chunk", stream[i:i + 1]) for i in range(len(stream))]
             ops = [api] * (len(frames) + 1)
-            sessions.append(({"keys": [key] * (len(frames) + 2)}, events, ops))
+            cfg = {"keys": [key] * (len(frames) + 2)}
+            if rnd.random() < 0.3:
+                # the transport accepts the pong in pieces (C07_trace holds for every short-write pattern)
+                cfg["acc"] = [rnd.choice([1, 2, 3, 7, 50]) for _ in range(rnd.randint(1, 4))]
+            sessions.append((cfg, events, ops))
             meta.append((frames, api))
     res = rx.run_sessions(ctx, "session:ping-pong", sessions)
     for (frames, api), (impl, model, ws, sock, line) in zip(meta, res):
